@@ -15,13 +15,22 @@ LAWS = ("const", "log", "sqrt", "linear3", "linear7", "squared", "exp")
 PRIOS = ("QUERY", "INTERACTIVE", "BATCH_PIPELINE")
 
 
-def rows_to_text(rows):
+def rows_to_text(rows, order=None):
+    """CSV text of the rows; columns in the canonical order, or (the reader goes by header names) in another one"""
     import csv
     f = io.StringIO()
     w = csv.writer(f, lineterminator="\n")
-    w.writerow(HEADER.split(","))
+    cols = HEADER.split(",")
+    idx = list(range(len(cols)))
+    if order == "reversed":
+        idx = idx[::-1]
+    elif order == "arrival_last":
+        idx = [i for i in idx if cols[i] != "arrival_seconds"] + [cols.index("arrival_seconds")]
+    elif order == "id_last":
+        idx = idx[1:] + idx[:1]
+    w.writerow([cols[i] for i in idx])
     for r in rows:
-        w.writerow(r)
+        w.writerow([r[i] for i in idx])
     return f.getvalue()
 
 
@@ -70,7 +79,7 @@ def run_trace(scn):
     rows = []
     for j, a in enumerate(arrivals):
         rows += simple_rows("p%d" % (j + 1), a, nops[j], PRIOS[j % 3])
-    text = "" if scn.get("empty_file") else rows_to_text(rows)
+    text = "" if scn.get("empty_file") else rows_to_text(rows, scn.get("col_order"))
     if scn.get("big"):
         out["probes_big"] = len(text)
     exp = [expected_tick(a, tps) for a in arrivals]
@@ -217,7 +226,8 @@ def gen_trace(r, avoid_known=True):
         nticks = 3000
     nticks = max(1, nticks)
     return {"kind": "trace", "tps": tps, "nticks": nticks, "arrivals": arrivals,
-            "nops": [r.choice([1, 1, 2, 3]) for _ in arrivals], "jump": jump}
+            "nops": [r.choice([1, 1, 2, 3]) for _ in arrivals], "jump": jump,
+            "col_order": r.choice([None] * 10 + ["reversed", "arrival_last", "id_last"])}
 
 
 def gen_bigtrace(r, tier):
@@ -625,7 +635,7 @@ def run_r2w(scn):
     pipes = scn["pipes"]
     nticks = max(p["at"] for p in pipes) + 3
     try:
-        text = rows_to_text(scn_to_rows(pipes, tps))
+        text = rows_to_text(scn_to_rows(pipes, tps), scn.get("col_order"))
         wt = CSVWorkloadReader(io.StringIO(text)).get_workload(tps)
         f = io.StringIO()
         w = CSVWorkloadWriter(f)
